@@ -65,7 +65,7 @@ class Spec:
         # PINGs whose answers have not been collected when a connection error follows (same chunk / next chunk): the answers
         # are owed all the same, in front of the GOAWAY; and a sized read + clear_outbound_data_buffer before further traffic
         self.menu = batches + split + ["api:%d" % i for i in range(len(API_PAYLOADS))] + ["req", "rxbad", "rxbad:same", "rxbad:next",
-                                                                                          "partialclear"]
+                                                                                          "partialclear", "altsvc"]
 
     def initial(self):
         out = []
@@ -151,6 +151,12 @@ class Spec:
                 st.next_local_sid += 2
                 st.open_req.append(sid)
             return Step("req-" + o.kind, viols)
+        if lab == "altsvc":
+            # an unrelated call - refused on a client, an ALTSVC frame on a server - after which PINGs are answered as before
+            o = H.call(conn, "advertise_alternative_service", b'h2=":443"', origin=b"example.com")
+            if self.client and (o.kind == "ok" or o.raw):
+                bad("client-advertised", "advertise_alternative_service on a client -> %s" % o.brief())
+            return Step("altsvc-" + o.kind, viols)
         if lab == "partialclear":
             try:
                 conn.ping(b"DISCARD!")
